@@ -33,9 +33,24 @@ def make_media(plan, hook=None):
         arr.append(fr)
     arr = np.stack(arr) if arr else np.zeros((0, H, W, 3), dtype=dtype)
     video = media.FakeVideo(arr, on_read=hook)
-    mv = media.make_mem_video(arr, name="mem.mp4", on_read=hook)
     sk = media.make_skeleton(plan["n_nodes"], [tuple(e) for e in plan.get("edges", [])] or None)
     spec = []
+    if any("vid" in f for f in plan["frames"]):
+        # labels listed in arbitrary order over two videos: (vid, fidx) is the frame's identity
+        nv = 2
+        nf = max([f.get("fidx", 0) for f in plan["frames"]] + [0]) + 1
+        varr = [np.zeros((nf, H, W, 3), dtype=dtype) for _ in range(nv)]
+        for f, fr in zip(plan["frames"], arr):
+            varr[f["vid"]][f["fidx"]] = fr
+        vids = [media.make_mem_video(varr[v], name=f"mem{v}.mp4", on_read=hook) for v in range(nv)]
+        for f in plan["frames"]:
+            insts = [(np.array(a, dtype="float64"), False) for a in f["animals"]]
+            if not insts:
+                insts = [(np.full((plan["n_nodes"], 2), np.nan), False)]
+            spec.append((f["vid"], f["fidx"], insts))
+        labels = media.make_labels(vids, sk, spec)
+        return video, labels
+    mv = media.make_mem_video(arr, name="mem.mp4", on_read=hook)
     for i, f in enumerate(plan["frames"]):
         insts = [(np.array(a, dtype="float64"), False) for a in f["animals"]]
         if not insts:
@@ -121,6 +136,10 @@ def run_predictor(plan, provider, choices=None, batch=None, frames_subset=None, 
     hook = stream.ReadFaults(sim, plan.get("faults", []))
     sim.register_main("consumer")
     pred, nets = build_predictor(p, sim, provider, hook=hook, batch=batch, max_instances=max_instances)
+    if provider != "video" and any("vid" in f for f in p["frames"]):
+        vids = pred.pipeline.labels.videos
+        pos = {(f["vid"], f["fidx"]): i for i, f in enumerate(p["frames"])}
+        hook.key_of = lambda video, idx: pos.get((vids.index(video), idx), -1)
     sim.adopt_thread(pred.pipeline, "reader")
     records, end, err = stream.run_consumer(sim, pred)
     return records, end, err, sim, nets
